@@ -70,9 +70,13 @@ fn used(n: &ANode, inner: &Scope, all: &mut BTreeSet<String>, unbound: &mut BTre
         for (q, _) in &e.attrs {
             names.push(q);
         }
-        for q in names {
+        for (k, q) in names.into_iter().enumerate() {
             all.insert(q.ns.clone());
             if !q.ns.is_empty() && q.ns != XML_NS && !sc.values().any(|u| *u == q.ns) {
+                unbound.insert(q.ns.clone());
+            }
+            // an attribute name (k > 0) needs a NON-EMPTY prefix: a default declaration does not resolve it
+            if k > 0 && !q.ns.is_empty() && q.ns != XML_NS && !sc.iter().any(|(p, u)| !p.is_empty() && *u == q.ns) {
                 unbound.insert(q.ns.clone());
             }
         }
@@ -280,14 +284,14 @@ impl Property for C09 {
         ]
     }
     fn plans(&self, tier: Tier) -> Vec<Plan> {
-        let mk = |name: &'static str, cases, max_nodes| Plan {
+        let mk = |name: &'static str, cases, max_nodes, variant| Plan {
             name,
             kind: PlanKind::Random { cases, max_len: 1000 },
-            knobs: Knobs { max_nodes, ..Default::default() },
+            knobs: Knobs { max_nodes, variant, ..Default::default() },
         };
         match tier {
-            Tier::Quick => vec![mk("trees", 400_000, 30)],
-            Tier::Thorough => vec![mk("trees", 2_000_000, 30), mk("trees-big", 100_000, 100)],
+            Tier::Quick => vec![mk("trees", 300_000, 30, 0), mk("trees-many-prefixes", 150_000, 30, 1)],
+            Tier::Thorough => vec![mk("trees", 2_000_000, 30, 0), mk("trees-big", 100_000, 100, 0), mk("trees-many-prefixes", 800_000, 30, 1)],
         }
     }
 
@@ -305,6 +309,19 @@ impl Property for C09 {
             _ => gen::gen_element_tree(src, &o),
         };
         let mut xot = Xot::new();
+        if ctx.knobs.variant == 1 {
+            // plan trees-many-prefixes: the store knows well over 64 / 128 prefixes and namespaces before
+            // the tree is built, and the ones the tree uses are spread over that range (ids are not small)
+            let mut k = 0;
+            for p in PREFIXES {
+                xot.add_prefix(p);
+                for _ in 0..63 {
+                    xot.add_prefix(&format!("f{}", k));
+                    xot.add_namespace(&format!("urn:filler:{}", k));
+                    k += 1;
+                }
+            }
+        }
         let mut hs = vec![];
         let root = match bridge::build(&mut xot, &doc, &mut hs) {
             Ok(r) => r,
